@@ -50,31 +50,84 @@ async def _open_process(argv, env=None, **kw):
     return p
 
 
+NOMINAL_FILE_SIZE = 4096  # size attributed to the configuration file when its text is not materialised
+
+
+class _Tok(str):
+    """what read() returns when the configuration is symbolic (its JSON text is not materialised)"""
+
+
 class _JsonShim:
+    """file I/O and JSON decoding of the configuration are not the subject: `json.load(f)` / `json.loads(f.read())`
+    give back the configuration object.  A loader that reads only part of the file gets a truncated text, which is
+    not valid JSON - the file's size is the real length of its JSON text when the configuration is concrete (size
+    family) and NOMINAL_FILE_SIZE otherwise."""
+
     JSONDecodeError = _json.JSONDecodeError
 
-    def __init__(self, cfg):
-        self.cfg = cfg
+    def __init__(self, cfg, text=None):
+        self.cfg, self.text = cfg, text
 
     def load(self, f):
         return self.cfg
 
+    def loads(self, t, **kw):
+        if isinstance(t, (bytes, bytearray)):
+            t = t.decode("utf-8")
+        if isinstance(t, _Tok):
+            if t.complete:
+                return self.cfg
+            raise _json.JSONDecodeError("Unterminated string", "config", 0)
+        if self.text is not None:
+            if t == self.text:
+                return self.cfg
+            if len(t) < len(self.text) and self.text.startswith(t):
+                raise _json.JSONDecodeError("Unterminated string", "config", len(t))
+        return _json.loads(t, **kw)
+
+    def dumps(self, o, **kw):
+        return _json.dumps(o, **kw)
+
 
 class _FakeFile:
+    def __init__(self, shim=None):
+        self.shim, self.pos = shim, 0
+
     def __enter__(self):
         return self
 
     def __exit__(self, *a):
         return False
 
+    def read(self, n=-1):
+        sh = self.shim
+        if sh is None:
+            raise HarnessError("configuration file read before _install")
+        if sh.text is not None:
+            rest = sh.text[self.pos:]
+            out = rest if (n is None or n < 0) else rest[:n]
+            self.pos += len(out)
+            return out
+        t = _Tok("<configuration>")
+        t.complete = (n is None or n < 0 or n >= NOMINAL_FILE_SIZE)
+        return t
 
-def _install(cfg):
+    def close(self):
+        pass
+
+
+MATERIALISE = [False]
+
+
+def _install(cfg, materialise=False):
+    materialise = materialise or MATERIALISE[0]
     L.calls, L.handshakes = [], []
     need(CONFIG, "json", "load_config")
     need(SMGR, "send_initialize", "anyio", "asyncio", "os", "run_command")
     need(MAIN, "send_initialize", "test_server")
-    CONFIG.json = _JsonShim(cfg)
-    CONFIG.open = lambda path, mode="r": _FakeFile()
+    shim = _JsonShim(cfg, _json.dumps(cfg, ensure_ascii=False) if materialise else None)
+    CONFIG.json = shim
+    CONFIG.open = lambda path, mode="r", *a, **k: _FakeFile(shim)
     STDIO.anyio.open_process = _open_process
     STDIO.anyio.create_task_group = lambda: _FakeTG()
 
@@ -332,11 +385,19 @@ from harness import sizes as _sizes  # noqa: E402
 _sizes.size_cases(70000, extra=_sizes.ENV_SIZES)
 
 
-def big_entry(which, k, form, pat):
+def big_entry(which, k, form, pat, clim=1100):
     """(0) one argument of n characters, (1) n arguments, (2) a command of n characters, (3) an environment value of
     n characters, (4) n environment variables, (5) n OTHER servers in the configuration before the target;
     n = c-1, c, c+1 for the integer constants c of the source (counts limited to 1100)"""
-    n = _sizes.pick(_sizes.size_cases(70000 if form in (0, 2, 3) else 1100, extra=_sizes.ENV_SIZES if form in (0, 2, 3) else ()), k)
+    n = _sizes.pick(_sizes.size_cases(70000 if form in (0, 2, 3) else clim, extra=_sizes.ENV_SIZES if form in (0, 2, 3) else ()), k)
+    MATERIALISE[0] = True  # the configuration is concrete here: the file has its real JSON text (and size)
+    try:
+        return _big_entry(which, n, form, pat)
+    finally:
+        MATERIALISE[0] = False
+
+
+def _big_entry(which, n, form, pat):
     command, args, envsel, envval = "srv-cmd", ["--flag", "value"], 2, "v"
     if form == 0:
         args = ["--data", _sizes.long_text(n, pat), "tail"]
